@@ -259,6 +259,42 @@ def install(E):
         E.store(a[0], Buf(b.base, b.off + n, b.len - n, b.cap - n if b.cap is not None else None, b.tag))
         return UNIT
 
+    @reg(E, 'BytesMut::truncate', 'bytes::Bytes::truncate', 'Bytes::truncate')
+    def truncate(E, a, ctx):
+        b = E.load(a[0])
+        n = a[1]
+        if isinstance(b, Buf):
+            if E.decide(z3.ULT(n, b.len)):
+                E.store(a[0], Buf(b.base, b.off, n, b.cap, b.tag))
+            return UNIT
+        if E.decide(z3.UGE(n, blen(E, b))):
+            return UNIT
+        raise Unsupported('truncate of a rope')
+
+    @reg_re(E, r'^(bytes::)?Bytes::slice$')
+    def bslice(E, a, ctx):
+        b = deref(E, a[0])
+        rng = a[1]
+        if not isinstance(b, Buf):
+            raise Unsupported('slice of a non-contiguous byte string')
+        n = blen(E, b)
+        lo, hi = BV(0), n
+        nm = getattr(rng, 'ty', '')
+        f = list(getattr(rng, 'fields', []))
+        if 'RangeFrom' in nm:
+            lo = f[0]
+        elif 'RangeTo' in nm:
+            hi = f[0]
+        elif 'RangeFull' in nm:
+            pass
+        elif len(f) == 2:
+            lo, hi = f
+        else:
+            raise Unsupported(f'Bytes::slice({rng!r})')
+        if not E.decide(z3.And(z3.ULE(lo, hi), z3.ULE(hi, n))):
+            raise Panic('range out of bounds in Bytes::slice')
+        return Buf(b.base, b.off + lo, hi - lo, None, b.tag)
+
     @reg(E, 'BytesMut::clear')
     def clear(E, a, ctx):
         b = E.load(a[0])
